@@ -17,7 +17,7 @@ where
     S: Serializer,
 {
     use std::io::ErrorKind::*;
-    match *kind {
+    let kind: u32 = match *kind {
         NotFound => 0,
         PermissionDenied => 1,
         ConnectionRefused => 2,
@@ -37,8 +37,8 @@ where
         Other => 16,
         UnexpectedEof => 17,
         _ => 16,
-    }
-    .serialize(serializer)
+    };
+    kind.serialize(serializer)
 }
 
 /// Deserializes [`io::ErrorKind`] from a `u32`.
